@@ -38,12 +38,22 @@ VARIANTS = ['absent', 'correct', 'bitflip', 'truncated', 'empty', 'extended', 'o
             'right_then_wrong', 'wrong_then_right', 'two_wrong', 'before_restart', 'replayed']
 
 
-def init_request(spi_i, nonce, ke_pub, cookies=(), dh=19):
+def init_request(spi_i, nonce, ke_pub, cookies=(), dh=19, req_kind='normal'):
     props = [{'num': 1, 'protocol': 1, 'spi': '', 'transforms': [
         {'type': 1, 'id': 12, 'keylen': 256}, {'type': 3, 'id': 12, 'keylen': None}, {'type': 2, 'id': 5, 'keylen': None},
         {'type': 4, 'id': dh, 'keylen': None}]}]
+    if req_kind == 'other_group':            # offers 19 and 20 but sends the KE in group 20: would be INVALID_KE_PAYLOAD
+        props[0]['transforms'].append({'type': 4, 'id': 20, 'keylen': None})
+        dh = 20
+        ke_pub = G.ec_public(20, 0x7654321)
+    elif req_kind == 'bad_proposal':         # nothing acceptable: would be NO_PROPOSAL_CHOSEN
+        props[0]['transforms'][0] = {'type': 1, 'id': 3, 'keylen': None}
+    elif req_kind == 'no_ke':                # would be a syntax error later on
+        pass
     pl = [SM.notify(W.N['COOKIE'], c.hex()) for c in cookies]
-    pl += [{'t': 'SA', 'proposals': props}, {'t': 'NONCE', 'data': nonce.hex()}, {'t': 'KE', 'group': dh, 'data': ke_pub.hex()}]
+    pl += [{'t': 'SA', 'proposals': props}, {'t': 'NONCE', 'data': nonce.hex()}]
+    if req_kind != 'no_ke':
+        pl.append({'t': 'KE', 'group': dh, 'data': ke_pub.hex()})
     return bytes(W.encode({'spi_i': spi_i.hex(), 'spi_r': '00' * 8, 'exchange': 34, 'msgid': 0,
                            'flags': {'response': False, 'initiator': True}, 'payloads': pl}))
 
@@ -99,7 +109,10 @@ def responder_case(case):
     # first contact without cookie: learn what the responder asks for
     dh0 = len(s.w.dh_log)
     before = c08.snap(a)
-    outs = send(init_request(spi, nonce, pubkey(99)))
+    rk = case.get('req_kind', 'normal')
+    if rk == 'other_group':
+        a.configuration.ike_configurations   # (the responder's own preference stays group 19)
+    outs = send(init_request(spi, nonce, pubkey(99), req_kind=rk))
     demanded = None
     if outs:
         m = W.decode(outs[0].data)
@@ -116,9 +129,20 @@ def responder_case(case):
                 s.fail('state-before-cookie', 'a request without cookie under load left state behind: ' + c08.diff(before, c08.snap(a)))
             if m['msgid'] != 0 or not m['flags']['response'] or m['spi_i'] != spi.hex():
                 s.fail('cookie-reply-header', 'the COOKIE reply header does not mirror the request')
-    if h > T and demanded is None:
-        s.fail('no-cookie-demanded-over-threshold', f'{h} half-open IKE_SAs exceed the threshold {T} but a request without cookie '
-                                                    f'was not answered with a COOKIE notification')
+    if rk == 'no_ke' and demanded is None:
+        # a request without a KE payload is malformed; an error notification instead of a COOKIE is not held against the daemon,
+        # but it must not cost a Diffie-Hellman computation or leave state behind
+        if len(s.w.dh_log) != dh0:
+            s.fail('dh-before-cookie:no_ke', 'a Diffie-Hellman key was generated for a malformed request without cookie under load')
+        if c08.snap(a) != before:
+            s.fail('state-before-cookie:no_ke', 'a malformed request without cookie under load left state behind')
+    elif h > T and demanded is None:
+        s.fail('no-cookie-demanded-over-threshold' + ('' if rk == 'normal' else ':' + rk),
+               f'{h} half-open IKE_SAs exceed the threshold {T} but a request without cookie ({rk}) was not answered with a COOKIE '
+               f'notification' + (f' but with {[p.get("ntype", p["t"]) for p in W.decode(outs[0].data)["payloads"]]}' if outs else ''))
+    if rk != 'normal':
+        info['reached'] = demanded is not None
+        return fails, info, s          # the cookie variants below use the well-formed request
     if demanded is None:
         return fails, info, s          # below the threshold: nothing more to check here
     info['reached'] = True
@@ -274,9 +298,9 @@ def run_case(case):
 def body(case, stats):
     fails, info, s = run_case(case)
     if case['kind'] == 'responder':
-        kl = [f'T={case["T"]}', f'h-T={case["h"] - case["T"]}', 'variant:' + case['variant'],
+        kl = [f'T={case["T"]}', f'h-T={case["h"] - case["T"]}', 'variant:' + case['variant'], 'request:' + case.get('req_kind', 'normal'),
               'cookie-demanded' if info['reached'] else 'no-cookie-demanded']
-        fp = [case['T'], case['h'], case['variant'], case.get('k', 0) % 8]
+        fp = [case['T'], case['h'], case['variant'], case.get('k', 0) % 8, case.get('req_kind', 'normal')]
     else:
         kl = [f'initiator:rounds={case["rounds"]}', f'initiator:requests={info["requests"]}']
         fp = ['init', case['rounds'], case.get('dh_mismatch')]
@@ -298,6 +322,8 @@ def all_cases():
                 ks = range(0, 256, 37) if v in ('bitflip', 'truncated') else (0,)
                 for k in ks:
                     out.append({'kind': 'responder', 'T': T, 'h': h, 'variant': v, 'k': k})
+            for rk in ('other_group', 'bad_proposal', 'no_ke'):
+                out.append({'kind': 'responder', 'T': T, 'h': h, 'variant': 'absent', 'k': 0, 'req_kind': rk})
     for rounds in (1, 2, 3):
         for mm in (False, True):
             out.append({'kind': 'initiator', 'rounds': rounds, 'dh_mismatch': mm})
@@ -322,7 +348,8 @@ def cases(draw):
         return {'kind': 'initiator', 'rounds': draw(st.integers(1, 4)), 'dh_mismatch': draw(st.booleans())}
     T = draw(st.sampled_from([0, 1, 2, 3, 5]))
     return {'kind': 'responder', 'T': T, 'h': draw(st.integers(0, T + 3)), 'variant': draw(st.sampled_from(VARIANTS)),
-            'k': draw(st.integers(0, 255))}
+            'k': draw(st.integers(0, 255)), 'req_kind': draw(st.sampled_from(['normal', 'normal', 'normal', 'other_group',
+                                                                              'bad_proposal', 'no_ke']))}
 
 
 def worker(task):
